@@ -192,6 +192,18 @@ def c10_build_multi(valid, vecs, r, new_id):
     return c.line(new_id)
 
 
+def c10_plan_request(valid, unit, v, r):
+    """model-driver request for the SPEC's faulty script of this (base, unit, vector, r): entry `valveplan` rebuilds the
+    base from its seed (`v<seed>_<k>`), reads the vector as a plan of Spec/ValveFaults.lean and prints the case line built
+    by Spec.faultyScript / faultyFaults with WANT = faultyExpected, SENT = faultySends, THM = the hypotheses of
+    C10_valve_query_faulty.  Only for cases straight from `gen valve` (not the compressed variants)."""
+    import re
+    m = re.fullmatch(r"v(\d+)_(\d+)", valid.id)
+    if not m:
+        return None
+    return f"valveplan {m.group(1)} {m.group(2)} {r} {unit} {v}"
+
+
 def c10_attempts(valid, unit, sends, clean):
     """attempts of `unit` seen on the wire; sends = [(conn, port, hex, failed)]; a valid attempt also answers each
     challenge once; with a late fault every attempt, failed or not, sends 1 + (challenge rounds) datagrams"""
